@@ -118,8 +118,9 @@ def float_affine(chk: Check, n):
         x = rng.integers(0, 40, nc + nt).astype(float)             # integer-valued: x + b is exact
         y = 0.5 * x + rng.normal(0, 3, nc + nt) + np.r_[np.zeros(nc), np.full(nt, 0.7)]
         base = None
-        for b in (0.0, 100.0, 1e6, 1e7):
-            data = pa.table({"variant": [0] * nc + [1] * nt, "y": y, "x": x + b})
+        for b in (0.0, 100.0, 1e6, 1e7, "x1e-7", "x2^20"):
+            xb = x * 1e-7 if b == "x1e-7" else x * 2.0 ** 20 if b == "x2^20" else x + b     # offsets and rescalings
+            data = pa.table({"variant": [0] * nc + [1] * nt, "y": y, "x": xb})
             try:
                 r = tt.Mean("y", "x", alternative=alt, equal_var=ev, use_t=ut).analyze(data, 0, 1, "variant")
             except Exception as ex:  # noqa: BLE001
@@ -133,7 +134,7 @@ def float_affine(chk: Check, n):
             for f in analysis.FIELDS:
                 u, v = float(getattr(base, f)), float(getattr(r, f))
                 if not (u == v or (math.isinf(u) and u == v) or abs(u - v) <= 1e-7 * max(abs(u), abs(v)) + 1e-12):
-                    chk.fail(f"float mode: adding {b:g} to the covariate changes field {f} far beyond rounding",
+                    chk.fail(f"float mode: replacing the covariate X by {'X + ' + format(b, 'g') if not isinstance(b, str) else 'X * ' + b[1:]} changes field {f} far beyond rounding",
                              dict(cell=[alt, ev, ut], offset=b, field=f, original=u, shifted=v, n=[nc, nt], seed=chk.seed, case=k))
                     break
 
